@@ -125,43 +125,59 @@ pub fn run(ctx: &Ctx) -> i32 {
 }
 
 /// (i) one layer, every small cel size at every offset around the canvas
-fn offsets(ctx: &Ctx, thorough: bool) {
+pub fn offsets(ctx: &Ctx, thorough: bool) {
     let fam = "offsets";
     if !ctx.wants_family(fam) {
         return;
     }
     let fmt = Fmt::Rgba;
-    let mut cases: Vec<(u16, u16, i16, i16, usize)> = Vec::new();
+    // (canvas w, canvas h, cel w, cel h, x, y, format)
+    let mut cases: Vec<(u16, u16, u16, u16, i16, i16, usize)> = Vec::new();
     let sizes: Vec<u16> = vec![1, 2, 3, 5];
+    // landscape, portrait, narrow and a canvas wider than 256
+    let canvases: Vec<(u16, u16)> = vec![(3, 2), (2, 4), (1, 3), (4, 1), (2, 7)];
     for fi in 0..if thorough { 3 } else { 1 } {
-        for w in &sizes {
-            for h in &sizes {
-                for x in -(*w as i16) - 1..=CW as i16 + 1 {
-                    for y in -(*h as i16) - 1..=CH as i16 + 1 {
-                        cases.push((*w, *h, x, y, fi));
+        for (cw, chh) in &canvases {
+            for w in &sizes {
+                for h in &sizes {
+                    for x in -(*w as i16) - 1..=*cw as i16 + 1 {
+                        for y in -(*h as i16) - 1..=*chh as i16 + 1 {
+                            cases.push((*cw, *chh, *w, *h, x, y, fi));
+                        }
                     }
-                }
-                for (x, y) in [(-32768i16, -32768i16), (32767, 32767), (-32768, 0), (0, 32767), (32767, -32768)] {
-                    cases.push((*w, *h, x, y, fi));
+                    for (x, y) in [(-32768i16, -32768i16), (32767, 32767), (-32768, 0), (0, 32767), (32767, -32768)] {
+                        cases.push((*cw, *chh, *w, *h, x, y, fi));
+                    }
                 }
             }
         }
         for (w, h) in [(65535u16, 1u16), (1, 65535), (300, 200)] {
             for (x, y) in [(0i16, 0i16), (-1, -1), (-32768, 0), (32767, 1), (-32767, -32767), (1, -32768)] {
-                cases.push((w, h, x, y, fi));
+                cases.push((CW, CH, w, h, x, y, fi));
+            }
+        }
+        // canvases beyond 256 pixels in one or both directions, cels around the far edges
+        for (cw, chh) in [(300u16, 3u16), (3, 300), (260, 258)] {
+            for (w, h) in [(1u16, 1u16), (2, 3), (5, 4)] {
+                for x in [-1i16, 0, 254, 255, 256, 257, cw as i16 - 2, cw as i16 - 1, cw as i16] {
+                    for y in [-1i16, 0, 254, 255, 256, chh as i16 - 2, chh as i16 - 1, chh as i16] {
+                        cases.push((cw, chh, w, h, x, y, fi));
+                    }
+                }
             }
         }
     }
-    ctx.family(fam, cases.len() as u64, "single layer over a backdrop layer: cel sizes {1,2,3,5}^2 at every offset in [-w-1,W+1]x[-h-1,H+1] plus the i16 extremes, and 65535x1 / 1x65535 / 300x200 cels; raw and compressed", true);
+    ctx.family(fam, cases.len() as u64, "single layer over a backdrop layer on canvases 3x2, 2x4, 1x3, 4x1, 2x7 (landscape and portrait): cel sizes {1,2,3,5}^2 at every offset in [-w-1,W+1]x[-h-1,H+1] plus the i16 extremes; 65535x1 / 1x65535 / 300x200 cels; canvases 300x3, 3x300, 260x258 with cels around x,y = 255/256 and the far edges; raw and compressed", true);
     let fmts = [Fmt::Rgba, Fmt::Gray, Fmt::Indexed(0)];
     let want = Want::all();
-    cases.par_iter().for_each(|(w, h, x, y, fi)| {
-        let case = || format!("fmt{} {}x{}@({},{})", fi, w, h, x, y);
+    cases.par_iter().for_each(|(cw, chh, w, h, x, y, fi)| {
+        let case = || format!("fmt{} canvas={}x{} {}x{}@({},{})", fi, cw, chh, w, h, x, y);
         if !ctx.wants(fam, &case) {
             return;
         }
         let fmt = &fmts[*fi];
-        let mut f = gen::file(CW, CH, fmt, &[10]);
+        let (cw, chh) = (*cw, *chh);
+        let mut f = gen::file(cw, chh, fmt, &[10]);
         if *fi == 2 {
             f.frames[0].push(new_palette(0, pal_entries(16, 3)));
         }
@@ -170,7 +186,7 @@ fn offsets(ctx: &Ctx, thorough: bool) {
         top.blend = 1;
         top.opacity = 200;
         f.frames[0].push(Body::Layer(top));
-        f.frames[0].push(raw_cel(0, 0, 0, 255, CW, CH, pixels(fmt, CW as usize, CH as usize, 1, (1, 15))));
+        f.frames[0].push(raw_cel(0, 0, 0, 255, cw, chh, pixels(fmt, cw as usize, chh as usize, 1, (1, 15))));
         let px = pixels(fmt, *w as usize, *h as usize, 2, (1, 15));
         if (*x as i32 + *y as i32) % 2 == 0 {
             f.frames[0].push(raw_cel(1, *x, *y, 180, *w, *h, px));
@@ -180,7 +196,7 @@ fn offsets(ctx: &Ctx, thorough: bool) {
         conform(ctx, fam, &case, &f, &want);
     });
     let _ = fmt;
-    ctx.sample(json!({"family": fam, "case": "fmt0 2x3@(-1,1)"}));
+    ctx.sample(json!({"family": fam, "case": "fmt0 canvas=2x4 2x3@(-1,1)"}));
 }
 
 /// (ii) all 256 x 256 (layer opacity, cel opacity) pairs, Normal and Multiply
